@@ -13,8 +13,8 @@ sys.path.insert(0, os.path.join(HOME, 'harness'))
 
 def ob_table(prop):
     m = importlib.import_module('props.' + prop)
-    q = {o.name: o for o in m.obligations('quick')}
-    t = {o.name: o for o in m.obligations('thorough')}
+    q = {o.name: o for o in m.obligations('quick') if 'quick' in o.tiers}
+    t = {o.name: o for o in m.obligations('thorough') if 'thorough' in o.tiers}
     rows = ['| obligation | kind | tier | bound |', '|---|---|---|---|']
     for name in list(q) + [n for n in t if n not in q]:
         o = q.get(name) or t[name]
